@@ -21,6 +21,8 @@
  *     wp<fl>:<cb>              tickit_watch_process (a pid that is not a child)
  *     c<id>                    tickit_watch_cancel of watch number id if it is still live
  *     s                        tickit_stop (C18)
+ *     d                        tickit_unref: the application drops its (only) reference.  From a callback the instance
+ *                              lives on until tickit_tick returns; the script ends there
  *     e<n>                     errno = n
  *     k<sig>                   raise(sig) if sig is currently watched (stays blocked)
  *     -                        nothing
@@ -75,7 +77,8 @@ static int fds[NFD];            /* read ends of pipes */
 static int ready[NFD];          /* scripted revents by harness descriptor number */
 static int inwait[8], ninwait;  /* signals arriving while ppoll waits */
 static int sleep_mode, quiet;
-static int run_mode, run_count, run_limit;   /* u<k>: tickit_run; the k-th ppoll of the run stops the loop */
+static int run_mode, run_count, run_limit;
+static int dropped;              /* d: the application's reference has been dropped (from a callback or between ops) */   /* u<k>: tickit_run; the k-th ppoll of the run stops the loop */
 static char out[1 << 18];
 static size_t outn;
 
@@ -218,6 +221,7 @@ static int do_act(const char *a)
     return 1;
   }
   if(a[0] == 's' && a[1] == 0) { tickit_stop(T); return 1; }
+  if(a[0] == 'd' && a[1] == 0) { if(T && !dropped) { dropped = 1; tickit_unref(T); } return 1; }   /* drop the application's reference */
   if(a[0] == 'e') { errno = atoi(a + 1); return 1; }
   if(a[0] == 'k') { int s = atoi(a + 1); if(is_watched(s)) raise(s); return 1; }
   return 0;
@@ -304,7 +308,7 @@ static void loop_case(void)
 {
   size_t heap_before = __sanitizer_get_current_allocated_bytes();
   outn = 0; out[0] = 0;
-  nws = 0; vclock = 0; iter = 0; ninwait = 0; sleep_mode = 0; run_mode = 0;
+  nws = 0; vclock = 0; iter = 0; ninwait = 0; sleep_mode = 0; run_mode = 0; dropped = 0;
   for(int i = 0; i < MAXCB; i++) cbs[i] = ubs[i] = NULL;
   for(int j = 0; j < NFD; j++) ready[j] = 0;
   int fallback = vh_ntok > 0 && strcmp(vh_tok[0], "F") == 0;
@@ -312,6 +316,7 @@ static void loop_case(void)
   T = tickit_build(&(struct TickitBuilder){ .tt = (TickitTerm *)tickit_mockterm_new(2, 2), .evhooks = fallback ? &f_hooks : NULL });
   for(int i = fallback; i < vh_ntok; i++) {
     char *a = vh_tok[i];
+    if(dropped) break;      /* the instance is gone */
     if((a[0] == 'c' || a[0] == 'u') && a[1] == 'b') {
       char *eq = strchr(a, '=');
       int k = atoi(a + 2);
@@ -350,7 +355,7 @@ static void loop_case(void)
   sigset_t pend; sigpending(&pend);
   for(int s = 1; s < 32; s++)
     if(sigismember(&pend, s)) signal(s, SIG_IGN);
-  tickit_unref(T);
+  if(!dropped) tickit_unref(T);
   T = NULL;
   /* everything the instance allocated must be gone (the dropped timer of defect #22) */
   if(__sanitizer_get_current_allocated_bytes() > heap_before) OUT("LEAK ");
